@@ -32,4 +32,17 @@ CLAIMS["C16"] = {
     "design_ref": "DESIGN.md section 5, C16",
 }
 
+CLAIMS["C15"] = {
+    "text": "Proof over the atomic-section model of workerQueue: for every finite sequence of push/completion actions (every interleaving of submitters and completions, unbounded) and every maxConcurrency >= 1: submitted = started ++ queued (each task handed out at most once, in submission order, none lost), running <= max (one at a time for gws's max = 1), a queued task always has a live worker that will call getJob again (no stranded task), and the queue drains within |q|+|running| completions with every submitted task run exactly once in order. Tied to the real queue through Conn.Async with gate-controlled tasks (exhaustive action sequences to depth 10/13) and concurrent submitters.",
+    "note": "Trusted: Lean kernel; mutex atomicity of getJob's critical section (structure extracted by factgen); deque = list (C20); goroutine scheduling fairness for the spawned worker.",
+    "technique": "Lean 4 invariant proof over a transition system of atomic sections + differential correspondence through Conn.Async",
+    "design_ref": "DESIGN.md section 5, C15",
+}
+CLAIMS["C19"] = {
+    "text": "Proof over the atomic-section model of ConcurrentMap/smap: shard index always in range (ToBinaryNumber gives a power of two; mask = mod); Load/Store/Delete refine a plain map, so every interleaving of them is a sequential history in critical-section order (linearizable); a Len interleaved with arbitrary other actions returns a value within size_at_start - overlapping removals .. + overlapping insertions; a Range interleaved with arbitrary actions passes no key twice, stops after the callback returns false, and passes every entry that is stable throughout exactly once. Mutex atomicity is assumed and validated by real concurrent histories (porcupine) in the suite.",
+    "note": "Trusted: Lean kernel; sync.Mutex atomicity per shard; Go map semantics; the linearizability checker of the validation suite.",
+    "technique": "Lean 4 refinement + invariant proofs over a transition system of per-shard critical sections + differential correspondence; porcupine as validation only",
+    "design_ref": "DESIGN.md section 5, C19",
+}
+
 NOT_CLAIMED = {}
